@@ -150,7 +150,7 @@ pub fn grid_volume(r: &mut Rng) -> f64 {
 	(r.below(if F32 { 256 } else { 1 << 16 }) as f64) / 4.0
 }
 
-pub const CANDLE_CLASSES: [&str; 6] = ["walk", "flat-stretches", "zero-volume", "grid", "trends", "extreme"];
+pub const CANDLE_CLASSES: [&str; 7] = ["walk", "flat-stretches", "zero-volume", "grid", "trends", "extreme", "clean-walk"];
 
 pub fn mk(o: f64, h: f64, l: f64, c: f64, v: f64) -> Candle {
 	Candle { open: o as V, high: h as V, low: l as V, close: c as V, volume: v as V }
@@ -190,7 +190,7 @@ pub fn candles(class: usize, seed: u64, len: usize, n_hint: usize) -> Vec<Candle
 			out.push(mk(o, h, l, c, v));
 			continue;
 		}
-		if class == 1 || (class != 4 && r.chance(0.002)) {
+		if class == 1 || (class != 4 && class != 6 && r.chance(0.002)) {
 			if flat_left == 0 && r.chance(if class == 1 { 0.04 } else { 0.5 }) {
 				flat_left = n + 1 + r.below((2 * n) as u64 + 2) as usize;
 			}
@@ -203,7 +203,7 @@ pub fn candles(class: usize, seed: u64, len: usize, n_hint: usize) -> Vec<Candle
 			0.0
 		} else if class == 2 && r.chance(0.05) {
 			q(vol_base * 1e9 * r.f())
-		} else if r.chance(0.03) {
+		} else if class != 6 && r.chance(0.03) {
 			0.0
 		} else {
 			q(vol_base * (0.1 + r.f()))
@@ -224,7 +224,7 @@ pub fn candles(class: usize, seed: u64, len: usize, n_hint: usize) -> Vec<Candle
 		let prev_close = if i == 0 { price } else { out[i - 1].close as f64 };
 		let o = if r.chance(0.7) { prev_close } else { prev_close * (1.0 + 0.01 * r.sf()) };
 		let mut c = o * (1.0 + trend + 0.02 * r.gauss());
-		if r.chance(0.08) {
+		if class != 6 && r.chance(0.08) {
 			c = o; // doji
 		}
 		if c <= 0.0 {
@@ -233,8 +233,9 @@ pub fn candles(class: usize, seed: u64, len: usize, n_hint: usize) -> Vec<Candle
 		let (o, c) = (q(o), q(c));
 		let hi0 = o.max(c);
 		let lo0 = o.min(c);
-		let h = if r.chance(0.25) { hi0 } else { q(hi0 * (1.0 + 0.01 * r.f())) };
-		let l = if r.chance(0.25) { lo0 } else { q(lo0 * (1.0 - 0.01 * r.f())) };
+		let pe = if class == 6 { 0.0 } else { 0.25 };
+		let h = if r.chance(pe) { hi0 } else { q(hi0 * (1.0 + 0.001 + 0.01 * r.f())) };
+		let l = if r.chance(pe) { lo0 } else { q(lo0 * (1.0 - 0.001 - 0.01 * r.f())) };
 		let h = h.max(hi0);
 		let l = l.min(lo0);
 		price = c;
